@@ -5,11 +5,15 @@ func (cw *CodeWriter) clearPending() {
 }
 
 func (cw *CodeWriter) flushPending() {
-	for _, ch := range cw.pendings {
-		if ch == '\t' {
-			cw.writeIndent()
-		} else {
-			cw.emitRune(ch)
+	// Layout in front of the first text of the output is dropped: it would be trimmed
+	// from the result afterwards, when the source mapper has already counted it.
+	if cw.Builder.Len() > 0 {
+		for _, ch := range cw.pendings {
+			if ch == '\t' {
+				cw.writeIndent()
+			} else {
+				cw.emitRune(ch)
+			}
 		}
 	}
 	cw.clearPending()
